@@ -8,6 +8,8 @@ import RjModel.Model.ParseWire
 import RjModel.Model.FileRecv
 import RjModel.Model.Exe
 import RjModel.Model.ExeValid
+import RjModel.Model.Run
+import RjModel.Generated.RunSkel
 import RjModel.Model.ParseSettings
 import RjModel.Generated.Defaults
 import RjModel.Model.ParseDoer
@@ -130,6 +132,13 @@ def handle (line : String) : String :=
       | "addpe", [p] => match unxBytes p with | some pl => showB (Exe.addPe bytes nameB pl) | none => "bad-op"
       | _, _ => "bad-op"
     | _, _ => "bad-op"
+  | ["runspec", so, d, outs] =>
+    -- execute_spec on the skeleton extracted from the source: launches ok? (0/1), outcome of each sync (a string of 0/1, "-" = none)
+    let bits := if outs = "-" then [] else outs.toList.map (· == '1')
+    if (so = "0" ∨ so = "1") ∧ (d = "0" ∨ d = "1") ∧ (outs = "-" ∨ outs.toList.all (fun c => c == '0' || c == '1')) then
+      let r := Run.executeSpec Generated.runSkel (so == "1") (d == "1") bits
+      s!"code={r.code} run={r.syncsRun}"
+    else "bad-op"
   | ["rpd", s] =>
     match unx s with
     | some str => renderPathDesc (parsePathDesc str)
